@@ -1,2 +1,3 @@
 # C18: atomic data (cross sections, rates) and spectrum samplers
 $(eval $(call HARNESS,c18_atomic,$(V)/harness/C18/c18_atomic.cpp,plain,-fopenmp -I$(V)/harness/C18,-lquadmath))
+$(eval $(call HARNESS,c18_samplers,$(V)/harness/C18/c18_samplers.cpp,plain,-fopenmp -fno-access-control -I$(V)/harness/C18,-lquadmath))
